@@ -103,9 +103,11 @@ func pairClass(bad *sync.Map, a, b string) string {
 	_, ba := bad.Load(a)
 	_, bb := bad.Load(b)
 	switch {
-	case ba && !bb:
+	case ba && bb && b < a:
+		return "field=" + b
+	case ba:
 		return "field=" + a
-	case bb && !ba:
+	case bb:
 		return "field=" + b
 	}
 	return "field=" + a + "+" + b
@@ -131,6 +133,7 @@ func evalCUT(r *vk.Run, name, class string, carrierTx *types.ContractUpgradeTx, 
 		atomic.AddInt64(&st.rejected, nCache)
 		return false
 	}
+	atomic.AddInt64(&distinctTx, 1)
 	for cs := 0; cs < nCache; cs++ {
 		tx, err := decodeCUT(wire)
 		atomic.AddInt64(&st.cases, 1)
@@ -283,7 +286,9 @@ func runCUT(r *vk.Run) int {
 		{"no-signatures", func(t *types.ContractUpgradeTx) { t.Signatures = nil }, false},
 		{"signature[0]-twice", func(t *types.ContractUpgradeTx) { t.Signatures = append(t.Signatures[:1], t.Signatures[0]) }, false},
 		{"signature[1]-twice", func(t *types.ContractUpgradeTx) { t.Signatures = append(t.Signatures[1:], t.Signatures[1]) }, false},
-		{"signature[0]-three-times", func(t *types.ContractUpgradeTx) { t.Signatures = append(t.Signatures[:1], t.Signatures[0], t.Signatures[0]) }, false},
+		{"signature[0]-three-times", func(t *types.ContractUpgradeTx) {
+			t.Signatures = append(t.Signatures[:1], t.Signatures[0], t.Signatures[0])
+		}, false},
 		{"reordered-signatures", func(t *types.ContractUpgradeTx) { t.Signatures[0], t.Signatures[1] = t.Signatures[1], t.Signatures[0] }, true},
 	}
 	for _, op := range ops {
@@ -386,6 +391,7 @@ func evalMST(r *vk.Run, name, class string, c *types.MultiSignAccountTx, accept 
 		return false
 	}
 	vs := types.NewValidatorSet(valSet)
+	atomic.AddInt64(&distinctTx, 1)
 	for cs := 0; cs < nCache; cs++ {
 		tx, err := decodeMST(wire)
 		atomic.AddInt64(&st.cases, 1)
